@@ -44,17 +44,135 @@ def classify_call(fn, b, t):
         return "index", _short_ty(inst)
     if n in SEQ_MUT_PANICKY and (c.startswith("std::vec::Vec") or c.startswith("core::slice::") or c.startswith("std::string::String") or c.startswith("core::str::")):
         return "seqop", "%s on %s" % (n, _short_ty(inst))
-    if n in ("borrow", "borrow_mut") and c.startswith("std::cell::RefCell"):
+    if n in ("borrow", "borrow_mut", "replace", "swap", "take", "replace_with") and c.startswith("std::cell::RefCell"):
         return "refcell", n
     if n in TIME_OPS and ("std::time::SystemTime as std::ops::" in inst or "std::time::Duration as std::ops::" in inst or "std::time::Instant as std::ops::" in inst):
         return "timeop", _short_ty(inst)
     if c in ("std::io::_print", "std::io::_eprint"):
         return "output", n
+    ext = external_panicky(c, inst)
+    if ext is not None:
+        return "extapi", ext
     # dependency conversions documented to panic on out-of-range input
     if n in ("from", "into") and "chrono::DateTime" in inst and "SystemTime" in inst:
         return "dep", "chrono DateTime from SystemTime"
     if n in ("timestamp", "timestamp_nanos", "with_ymd_and_hms", "ymd", "and_hms") and c.startswith("chrono::") and "Opt" not in c and n != "timestamp":
         return "dep", "chrono %s" % n
+    return None
+
+
+# Library entry points that are documented (or read in the pinned source) to panic on some input. The table is a
+# deny-list reviewed against the complete list of external callees of the crate (tools/list_external_callees.py prints it);
+# an API not listed here is either total, returns its failure as a value, or fails only on allocation (abort, not panic).
+EXTERNAL_PANICKY = [
+    # (callee prefix after generic stripping, name, what makes it panic)
+    ("std::env::args", None, "std::env::args panics on an argument that is not valid Unicode (use args_os)"),
+    ("std::env::vars", None, "std::env::vars panics on a variable that is not valid Unicode (use vars_os)"),
+    ("core::fmt::rt::Argument", "from_usize", "a `{:width$}`/`{:.prec$}` argument above u16::MAX panics (\"Formatting argument out of range\")"),
+    ("onig::Regex", "is_match", "onig's convenience matchers panic when the match fails (retry-limit-in-match over, stack limit)"),
+    ("onig::Regex", "match_with_options", "panics when the match fails"),
+    ("onig::Regex", "match_with_encoding", "panics when the match fails"),
+    ("onig::Regex", "search_with_options", "panics when the search fails"),
+    ("onig::Regex", "search_with_encoding", "panics when the search fails"),
+    ("onig::Regex", "find", "panics when the search fails"),
+    ("onig::Regex", "find_iter", "panics when the search fails"),
+    ("onig::Regex", "captures", "panics when the search fails"),
+    ("onig::Regex", "captures_iter", "panics when the search fails"),
+    ("onig::Regex", "replace", "panics when the search fails"),
+    ("onig::Regex", "replace_all", "panics when the search fails"),
+    ("onig::Regex", "replacen", "panics when the search fails"),
+    ("onig::Regex", "split", "panics when the search fails"),
+    ("onig::Regex", "splitn", "panics when the search fails"),
+    ("onig::Regex", "scan", "panics when the search fails"),
+    ("core::num", "div_ceil", "division by zero"),
+    ("core::num", "div_euclid", "division by zero / overflow"),
+    ("core::num", "rem_euclid", "division by zero / overflow"),
+    ("core::num", "pow", "overflow (debug)"),
+    ("core::num", "abs", "overflow on MIN (debug)"),
+    ("core::num", "next_power_of_two", "overflow (debug)"),
+    ("core::num", "ilog", "zero / base < 2"), ("core::num", "ilog2", "zero"), ("core::num", "ilog10", "zero"),
+    ("core::num", "isqrt", "negative"),
+    ("std::iter::Iterator", "sum", "integer overflow with overflow checks on"),
+    ("std::iter::Iterator", "product", "integer overflow with overflow checks on"),
+    ("std::iter::Iterator", "step_by", "step 0"),
+    ("std::time::Duration", "new", "carry from nanoseconds overflows the seconds"),
+    ("std::time::Duration", "from_secs_f64", "negative, overflow or not finite"),
+    ("std::time::Duration", "from_secs_f32", "negative, overflow or not finite"),
+    ("std::time::Duration", "mul_f64", "negative, overflow or not finite"), ("std::time::Duration", "mul_f32", "negative, overflow or not finite"),
+    ("std::time::Duration", "div_f64", "negative, overflow or not finite"), ("std::time::Duration", "div_f32", "negative, overflow or not finite"),
+    ("std::time::Duration", "abs_diff", None),
+    ("std::time::Instant", "duration_since", None),
+    ("std::time::Instant", "elapsed", None),
+    ("std::time::SystemTime", "elapsed", None),
+    ("core::slice", "split_at", "mid > len"), ("core::slice", "split_at_mut", "mid > len"),
+    ("core::slice", "copy_from_slice", "length mismatch"), ("core::slice", "clone_from_slice", "length mismatch"),
+    ("core::slice", "chunks", "chunk size 0"), ("core::slice", "chunks_exact", "chunk size 0"), ("core::slice", "windows", "size 0"), ("core::slice", "rchunks", "chunk size 0"),
+    ("core::slice", "swap", "index out of bounds"), ("core::slice", "rotate_left", "mid > len"), ("core::slice", "rotate_right", "k > len"),
+    ("core::slice", "select_nth_unstable", "index out of bounds"), ("core::slice", "copy_within", "range out of bounds"),
+    ("core::slice", "split_first_chunk", None),
+    ("core::str", "split_at", "not a char boundary / past the end"), ("core::str", "split_at_mut", "not a char boundary"),
+    ("core::str", "repeat", "capacity overflow"), ("std::str", "repeat", "capacity overflow"), ("std::slice", "repeat", "capacity overflow"),
+    ("std::char::methods", "to_digit", "radix > 36"), ("std::char::methods", "is_digit", "radix > 36"), ("std::char::methods", "from_digit", "radix > 36"),
+    ("core::num", "from_str_radix", "radix outside 2..=36"),
+    ("std::vec::Vec", "with_capacity", "capacity overflow"), ("std::string::String", "with_capacity", "capacity overflow"),
+    ("std::vec::Vec", "reserve", "capacity overflow"), ("std::vec::Vec", "reserve_exact", "capacity overflow"),
+    ("std::collections::VecDeque", "swap", "index out of bounds"), ("std::collections::VecDeque", "insert", "index out of bounds"),
+    ("std::cell::OnceCell", "get_or_init", "re-entrant initialisation"),
+    ("std::cell::LazyCell", "force", "poisoned / re-entrant"),
+    ("std::thread", "spawn", "the OS fails to create a thread"), ("std::thread::JoinHandle", "join", None),
+    ("std::sync::Mutex", "lock", None),
+    ("std::process::Child", "wait", None),
+    ("clap::Command", "get_matches", "exits / panics on invalid UTF-8"), ("clap::Command", "get_matches_from", "exits / panics on invalid UTF-8"),
+    ("clap::ArgMatches", "get_one", "panics when the id is unknown or the type differs from the argument's value parser"),
+    ("clap::ArgMatches", "get_many", "panics when the id is unknown or the type differs"),
+    ("clap::ArgMatches", "get_flag", "panics when the argument is not a flag"),
+    ("clap::ArgMatches", "get_count", "panics when the argument is not a counter"),
+    ("clap::ArgMatches", "contains_id", "panics (debug) when the id is unknown"),
+    ("clap::ArgMatches", "indices_of", "panics (debug) when the id is unknown"),
+    ("clap::ArgMatches", "value_source", "panics (debug) when the id is unknown"),
+    ("clap::ArgMatches", "remove_one", "panics when the id is unknown or the type differs"),
+    ("chrono::DateTime", "with_timezone", None),
+    ("chrono::DateTime", "from_naive_utc_and_offset", None),
+    ("chrono::TimeZone", "timestamp", "out of range"), ("chrono::TimeZone", "ymd", "out of range"), ("chrono::TimeZone", "from_utc_datetime", None),
+    ("chrono::Local", "now", None),
+    ("chrono::NaiveDate", "from_ymd", "out of range"), ("chrono::NaiveTime", "from_hms", "out of range"),
+    ("chrono::DateTime", "format", "the returned DelayedFormat's Display fails on an invalid item, and to_string()/format!/write! unwrap that"),
+]
+# entries whose reason is None are total on this platform (documented no panic / saturating) and only listed to record the review
+EXTERNAL_PANICKY = [e for e in EXTERNAL_PANICKY if e[2] is not None]
+
+
+def strip_generics_path(c):
+    out = []
+    depth = 0
+    i = 0
+    while i < len(c):
+        if depth == 0 and c.startswith("::<", i):
+            depth = 1
+            i += 3
+            continue
+        if depth > 0:
+            if c[i] == "<":
+                depth += 1
+            elif c[i] == ">":
+                depth -= 1
+            i += 1
+            continue
+        out.append(c[i])
+        i += 1
+    return "".join(out)
+
+
+def external_panicky(callee, inst):
+    if not callee or callee.startswith("findutils::"):
+        return None
+    c = strip_generics_path(callee)
+    for pre, name, why in EXTERNAL_PANICKY:
+        if name is None:
+            if c == pre:
+                return "%s: %s" % (c, why)
+        elif c == pre + "::" + name or (c.startswith(pre + "::") and c.endswith("::" + name)):
+            return "%s: %s" % (c, why)
     return None
 
 
@@ -64,13 +182,13 @@ def _short_ty(s):
     return s[:110]
 
 
-def enumerate_sites(prog, roots, crate="findutils", exclude_prefix=()):
+def enumerate_sites(prog, roots, crate=("findutils", "find", "xargs"), exclude_prefix=()):
     reach = prog.reachable_fns(roots)
     sites = []
     fns = []
     for path in sorted(reach):
         f = prog.fns[path]
-        if f.crate != crate or any(path.startswith(p) for p in exclude_prefix):
+        if f.crate not in crate or any(path.startswith(p) for p in exclude_prefix):
             continue
         fns.append(f)
         for b in sorted(f.reachable()):
@@ -297,6 +415,8 @@ def t2(site):
     fn, b, t = site.fn, site.bb, site.term
     if site.kind == "output":
         return "T2a", "print!/eprint! panic only when the write to stdout/stderr fails (the state of the output pipe is outside the property's quantifier)"
+    if site.kind == "extapi":
+        return t2_extapi(site)
     if site.kind != "unwrap":
         return None
     o = prim.expand_single_def_vars(fn, prim.origin_of_operand(fn, t.args[0])).strip()
@@ -318,6 +438,90 @@ def t2(site):
     if o.k == "call" and o.a["name"] == "from_timestamp" and any(c.a["name"] == "now" for c in o.call_nodes()):
         return "T2c", "DateTime::from_timestamp(seconds of now, 0): in chrono's range"
     return None
+
+
+def _const_operand(fn, op):
+    o = prim.expand_single_def_vars(fn, prim.origin_of_operand(fn, op)).strip()
+    if o.k == "const":
+        return o
+    return None
+
+
+def t2_extapi(site):
+    """library entry points whose panic condition is a function of program constants only (T2b), or of nothing the input
+    controls"""
+    fn, t = site.fn, site.term
+    c = strip_generics_path(t.callee or "")
+    n = t.j.get("callee_name")
+    if c.startswith("clap::ArgMatches::"):
+        k = _const_operand(fn, t.args[1]) if len(t.args) > 1 else None
+        if k is not None and isinstance(k.a.get("v"), str):
+            return "T2b", "clap lookup of the constant id %r: whether the id exists and has this type is decided by the constant argument table (the same on every run)" % k.a["v"]
+        return None
+    if n in ("from_str_radix", "is_digit", "to_digit", "from_digit"):
+        k = _const_operand(fn, t.args[-1])
+        if k is not None and isinstance(k.a.get("v"), int) and 2 <= k.a["v"] <= 36:
+            return "T2b", "constant radix %d" % k.a["v"]
+        return None
+    if n in ("div_ceil", "div_euclid", "rem_euclid"):
+        k = _const_operand(fn, t.args[-1])
+        if k is not None and isinstance(k.a.get("v"), int) and k.a["v"] > 0:
+            return "T2b", "constant positive divisor %d (unsigned: no overflow case)" % k.a["v"]
+        return None
+    if c == "chrono::DateTime::format":
+        k = _const_operand(fn, t.args[1])
+        if k is not None and isinstance(k.a.get("v"), str):
+            bad = _strftime_invalid(k.a["v"])
+            if not bad:
+                return "T2b", "constant strftime format %r: every item is one chrono formats for a DateTime" % k.a["v"]
+            return None
+        return None
+    return None
+
+
+# strftime specifiers chrono 0.4 accepts for a DateTime (format/strftime.rs), without padding modifiers
+_STRFTIME_OK = set("YCyGgmbBhdeaAwujUWVDxFvHkIlPpMSfTXrRZzcs+tn%")
+
+
+def _strftime_invalid(fmt):
+    i = 0
+    bad = []
+    while i < len(fmt):
+        ch = fmt[i]
+        if ch != "%":
+            i += 1
+            continue
+        i += 1
+        if i < len(fmt) and fmt[i] in "-_0":
+            i += 1
+        if i < len(fmt) and fmt[i] == ".":
+            # %.f %.3f %.6f %.9f
+            j = i + 1
+            if j < len(fmt) and fmt[j] in "369":
+                j += 1
+            if j < len(fmt) and fmt[j] == "f":
+                i = j + 1
+                continue
+            bad.append(fmt[i - 1:j + 1])
+            i = j
+            continue
+        if i < len(fmt) and fmt[i] in "369" and i + 1 < len(fmt) and fmt[i + 1] == "f":
+            i += 2
+            continue
+        if i < len(fmt) and fmt[i] == ":":
+            j = i
+            while j < len(fmt) and fmt[j] == ":":
+                j += 1
+            if j < len(fmt) and fmt[j] == "z":
+                i = j + 1
+                continue
+            bad.append(fmt[i - 1:j + 1])
+            i = j
+            continue
+        if i >= len(fmt) or fmt[i] not in _STRFTIME_OK:
+            bad.append(fmt[i - 1:i + 1])
+        i += 1
+    return bad
 
 
 # ------------------------------------------------------------------------------------------------------------
@@ -416,6 +620,46 @@ def check_condition(prog, site, cond):
         o = prim.origin_of_operand(fn, t.args[0]).strip()
         same = o.k == "call" and o.a["callee"].endswith(cond["callee"])
         return same, "%s runs %s()? before returning Ok; this site unwraps the same call" % (prim.short(cond["ctor"]), cond["callee"])
+    if ty == "strftime_validated":
+        # the format handed to DateTime::format is the payload of `adt::variant` (possibly through str::replace with a
+        # valid constant), and every construction of that variant stores either a valid constant or a string that passed
+        # `StrftimeItems::new(..).next()` != None/Item::Error on the way
+        o = prim.expand_single_def_vars(fn, prim.origin_of_operand(fn, t.args[1]))
+        names = {c.a["name"] for c in o.call_nodes()}
+        if not names <= {"replace", "deref", "as_str", "as_ref", "borrow"}:
+            return False, "format operand %s goes through %s" % (o.fmt()[:120], sorted(names))
+        if not any(x.k == "variant" and str(x.a) == cond["variant"] for x in o.walk()):
+            return False, "format operand %s is not the payload of %s" % (o.fmt()[:120], cond["variant"])
+        for c in o.consts():
+            v = c.get("v")
+            if isinstance(v, str) and v != "%+" and _strftime_invalid(v):
+                return False, "constant %r is not a valid strftime format" % v
+        n = 0
+        for f2 in prog.fns.values():
+            if "::tests::" in f2.path or f2.crate != fn.crate:
+                continue
+            for b2 in f2.reachable():
+                for st in f2.blocks[b2].stmts:
+                    if st.rv is not None and st.rv.k == "agg" and st.rv.j.get("adt") == cond["adt"] and st.rv.j.get("variant") == cond["variant"]:
+                        n += 1
+                        po = prim.expand_single_def_vars(f2, prim.origin_of_operand(f2, st.rv.ops[0]))
+                        cs = [c.get("v") for c in po.consts() if isinstance(c.get("v"), str)]
+                        if not any(x.k in ("arg", "var", "field", "phi") for x in po.walk()) and cs and not any(_strftime_invalid(v) for v in cs):
+                            continue
+                        some = item = False
+                        for gd in prim.dominating_guards(f2, b2):
+                            pr = gd["pred"]
+                            if not any(c.a["name"] == "next" for c in pr.call_nodes()) or not any("StrftimeItems" in c.a["callee"] or c.a["name"] == "new" for c in pr.call_nodes()):
+                                continue
+                            dty = prim.discr_type_of_switch(f2, gd["bb"]) or ""
+                            if dty.startswith("std::option::Option") and gd["labels"] == [1]:
+                                some = True
+                            if dty == "chrono::format::Item" and gd["labels"] == ["else"]:
+                                arms = [v for v, _ in f2.blocks[gd["bb"]].term.j["arms"]]
+                                item = arms == [cond.get("error_discr", 6)]
+                        if not (some and item):
+                            return False, "%s::%s built in %s from %s without the StrftimeItems validation" % (cond["adt"], cond["variant"], f2.path, po.fmt()[:100])
+        return n > 0, "all %d constructions of %s store a valid constant or a string whose first (only) item was parsed by StrftimeItems and is not Item::Error" % (n, cond["variant"])
     if ty == "captures_group_total":
         # `caps[i]` on a match of a constant regex in which group i takes part in every match
         idx = t.args[1].const_value()
